@@ -297,5 +297,81 @@ pub proof fn lemma_default_depot_covers_all_trips(
 {
     assert(allowed.contains_key(lookup[id]));
 }
+// ================================================================ create_service_trips : one node per departure segment
+// C17: "one service node per departure segment with the route's vehicle type, origin, destination, distance,
+// departure, arrival = departure + duration, passengers (zero counted as one), seated passengers and formation
+// limit".  The per-segment computations are lifted (R8) out of the loop of create_service_trips; the loop
+// plumbing (look-ups by id in std HashMaps keyed by String, the `passengers == 0 -> 1` statement, the push into the
+// per-type list) is pinned by the skeleton hash, not verified.
+//@item model/src/json_serialisation/mod.rs struct RouteSegment : plain
+//@end
+//@item model/src/json_serialisation/mod.rs struct DepartureSegment : plain
+//@end
+pub type Integer = u64;
+pub type DateTimeString = String;
+//@item model/src/base_types/distance.rs Distance::from_meter
+//@retname r
+//@sig
+    ensures r == Distance::Distance(m),
+//@end
+//@item model/src/network/nodes.rs Node::create_service_trip
+//@retname r
+//@sig
+    ensures r.id == id, r.vehicle_type == vehicle_type, r.origin == origin, r.destination == destination,
+        r.departure == departure, r.arrival == arrival, r.distance == distance, r.passengers == passengers,
+        r.seated == seated, r.maximal_formation_count == maximal_formation_count,
+//@end
+//@item model/src/network/nodes.rs Node::create_maintenance
+//@retname r
+//@sig
+    ensures r.id == id, r.location == location, r.start == start, r.end == end, r.track_count == track_count,
+//@end
+
+//@skeleton model/src/json_serialisation/mod.rs fn create_service_trips : let arrival_time; let distance; let seated; let maximal_formation_count; let service_trip = f753b2316ef8cfcb
+
+//@frag model/src/json_serialisation/mod.rs fn create_service_trips : let arrival_time as frag_arrival_time
+//@params departure_time: DateTime, route_segment: &&RouteSegment
+//@ret (r: DateTime)
+//@sig
+    requires
+        // the arrival must be representable (DateTime + Duration panics otherwise: A-time, slice `time`)
+        vstd::std_specs::ops::AddSpec::add_req(departure_time, Duration::Length(DurationLength { seconds: route_segment.duration })),
+    ensures
+        r == dt_add(departure_time, Duration::Length(DurationLength { seconds: route_segment.duration })), // @obl C17.loader.arrival_is_departure_plus_duration
+//@end
+//@frag model/src/json_serialisation/mod.rs fn create_service_trips : let distance as frag_trip_distance
+//@params route_segment: &&RouteSegment
+//@ret (r: Distance)
+//@sig
+    ensures r == Distance::Distance(route_segment.distance), // @obl C17.loader.distance_of_the_route_segment
+//@end
+//@frag model/src/json_serialisation/mod.rs fn create_service_trips : let seated as frag_trip_seated
+//@params departure_segment: &DepartureSegment
+//@ret (r: PassengerCount)
+//@sig
+    ensures r == departure_segment.seated as u32,
+        departure_segment.seated <= u32::MAX ==> r == departure_segment.seated, // @obl C17.loader.seated_of_the_departure_segment
+//@end
+//@frag model/src/json_serialisation/mod.rs fn create_service_trips : let maximal_formation_count as frag_trip_formation_limit
+//@params route_segment: &&RouteSegment
+//@ret (r: Option<VehicleCount>)
+//@closure-params map#0
+    Integer
+//@closure map#0
+    -> (c: VehicleCount) ensures c == x as u32
+//@sig
+    ensures
+        route_segment.maximal_formation_count is None <==> r is None,
+        route_segment.maximal_formation_count is Some ==> r == Some(route_segment.maximal_formation_count->Some_0 as u32), // @obl C17.loader.formation_limit_of_the_route_segment
+//@end
+//@frag model/src/json_serialisation/mod.rs fn create_service_trips : let service_trip as frag_service_trip
+//@params id: String, vehicle_type: VehicleTypeIdx, origin: Location, destination: Location, departure_time: DateTime, arrival_time: DateTime, distance: Distance, passengers: PassengerCount, seated: PassengerCount, maximal_formation_count: Option<VehicleCount>
+//@ret (r: ModelServiceTrip)
+//@sig
+    ensures
+        r.id == id, r.vehicle_type == vehicle_type, r.origin == origin, r.destination == destination,
+        r.departure == departure_time, r.arrival == arrival_time, r.distance == distance,
+        r.passengers == passengers, r.seated == seated, r.maximal_formation_count == maximal_formation_count, // @obl C17.loader.node_carries_the_segments_own_data
+//@end
 } // verus!
 fn main() {}
